@@ -78,20 +78,11 @@ def bundle_specs(draw):
     return [src, tval, seq, frag, draw(st.integers(0, len(DESTS) - 1)), rpt, damaged]
 
 
-def stack_ops():
-    send = st.tuples(st.just('send'), st.sampled_from([1, 3]), st.sampled_from([1, 2, 3]), st.booleans(), st.sampled_from([0, 0, 1])).map(list)
-    cut = st.tuples(st.sampled_from(['cut', 'close']), st.sampled_from([1, 2, 3])).map(list)
-    wait = st.tuples(st.just('wait'), st.sampled_from([0, 1000, 40000])).map(list)
-    return st.lists(st.one_of(send, send, send, cut, cut, wait), min_size=3, max_size=10)
-
-
 def strategy(tier):
     routes = st.lists(st.tuples(st.integers(0, len(PATTERNS) - 1), st.sampled_from(ACTIONS)).map(list), max_size=5)
     single = st.fixed_dictionaries({'routes': routes, 'bundles': st.lists(bundle_specs(), min_size=3, max_size=14)})
-    stack = st.fixed_dictionaries({'kind': st.just('stack'), 'ops': stack_ops(), 'keepalive': st.sampled_from([0, 0, 10]),
-                                   'hops': st.lists(st.sampled_from(['tcpcl', 'tcpcl', 'udpcl']), min_size=2, max_size=2),
-                                   'umtu': st.sampled_from([None, 100]), 'rmtu': st.sampled_from([None, None, 150]),
-                                   'size': st.sampled_from([8, 8, 300])})
+    from vlib import stack_world as sw
+    stack = sw.cases()
     return st.one_of(single, single, single, stack)
 
 
@@ -136,57 +127,11 @@ def execute_stack(case):
     terminated or closed in between and re-made on demand.  Judged from the octets of the TCP connections: a bundle
     that n2 received is transmitted to its next hop at most once, whatever happens to the sessions; and from the
     recorder: each bundle is delivered at most once, and only at its destination. '''
-    from vlib import stack_world as sw, bpconv, ref9171 as r, tcpcl_world as tw
-    import dbus
+    from vlib import stack_world as sw, ref9171 as r
     out = Outcome()
-    hop12, hop23 = case.get('hops') or ['tcpcl', 'tcpcl']
-    rmtu = case.get('rmtu')
-    world = sw.StackWorld([
-        dict(routes=[('^dtn://n[23]/', 2, hop12, rmtu)], rx_routes=[('^dtn://n1/', 'deliver')]),
-        dict(routes=[('^dtn://n1/', 1, hop12, rmtu), ('^dtn://n3/', 3, hop23, rmtu)],
-             rx_routes=[('^dtn://n2/', 'deliver'), ('^dtn://n[13]/', 'forward')]),
-        dict(routes=[('^dtn://n[12]/', 2, hop23, rmtu)], rx_routes=[('^dtn://n3/', 'deliver')]),
-    ], tcpcl_kwargs=dict(keepalive_time=case.get('keepalive', 0)), udpcl_mtu=case.get('umtu'))
-    out.label('stack-hops:%s+%s' % (hop12, hop23))
-    if rmtu:
-        out.label('stack-route-mtu')
+    world, info = sw.drive(case, out)
     try:
-        seq = 0
-        sent = {}
-        carried = set()      # hosts whose sessions carried something before they were cut
-        cut_after_traffic = resend_after_cut = False
-        for op in case['ops']:
-            if op[0] == 'send':
-                _o, origin, dest, pump, rpt = op
-                if dest == origin:
-                    dest = 2
-                seq += 1
-                flags = (r.FLAG_RPT_RECEPTION | r.FLAG_RPT_FORWARD | r.FLAG_RPT_DELIVERY) if rpt else 0
-                pri = dict(version=7, flags=flags, crc_type=1, dest=['dtn', '//n%d/svc' % dest], src=['dtn', '//n%d/app' % origin],
-                           rpt=['dtn', '//n%d/' % origin] if rpt else ['dtn', 'none'], ts=[1000, seq], lifetime=3600000, frag=None)
-                bundle = {'primary': pri, 'blocks': [dict(type=1, num=1, flags=0, crc_type=2, data=((b'stack-%d-' % seq) * 60)[:case.get('size', 8)].hex())]}
-                err = world.hosts[origin].originate(bpconv.to_repo(bundle))
-                if err is not None:
-                    out.fail('originate-raises:%s' % type(err).__name__, 'send_bundle at n%d raised %s: %s' % (origin, type(err).__name__, err))
-                sent[(('dtn', '//n%d/app' % origin), 1000, seq)] = dest
-                if cut_after_traffic:
-                    resend_after_cut = True
-                if pump:
-                    world.pump()
-                    carried.update([1, 2, 3])
-            elif op[0] in ('cut', 'close'):
-                host = world.hosts[op[1]]
-                for hdl in host.contacts():
-                    if op[0] == 'cut':
-                        if hdl.get_session_state() == 'established':
-                            tw.dbuscall(host.tctx, hdl, 'terminate', dbus.Byte(0))
-                    else:
-                        tw.dbuscall(host.tctx, hdl, 'close')
-                    if op[1] in carried:
-                        cut_after_traffic = True
-                world.pump()
-            elif op[0] == 'wait':
-                world.advance(op[1])
+        cut_after_traffic, resend_after_cut = info['cut_after_traffic'], info['resend_after_cut']
         if not world.pump():
             out.label('not-quiescent')
         world.advance(1000)
